@@ -1018,6 +1018,7 @@ impl<'p> Model<'p> {
                     if items.is_empty() {
                         self.classes.insert("zero-iteration-loop");
                     }
+                    let ran_any = !items.is_empty();
                     for (n, it) in items.into_iter().enumerate() {
                         self.step()?;
                         if n > 0 && self.eval(src)? != h {
@@ -1030,6 +1031,11 @@ impl<'p> Model<'p> {
                             self.classes.insert("return-from-inside-for");
                             return Ok(Flow::Return(val));
                         }
+                    }
+                    // the loop line is bound once more when the items are used up: a source changed by the LAST
+                    // iteration (e.g. an argument variable overwritten by a nested call) is the same open corner
+                    if ran_any && self.eval(src)? != h {
+                        return Err(Stop::Unconstrained("for-in source variable changed during iteration"));
                     }
                 }
                 Stmt::Call { out, f, args } => {
